@@ -1249,7 +1249,11 @@ func scenSyncClose(name string, rng *vh.RNG, r *vh.Run) {
 		}
 	}
 	if !reached {
-		orc(c, "setup", "the sync round did not reach the moment of variant %d within %v (%d block requests in flight)", variant, settleDeadline, inFlight())
+		// the rig could not set the scene (the round took another course, e.g. fewer requests than
+		// the variant waits for): nothing has been observed about the property, so this is recorded
+		// in the coverage, not reported as a violation; Close must still return
+		c.Tags = append(c.Tags, fmt.Sprintf("setup-not-reached:syncclose-variant-%d", variant))
+		c.Info["setup_not_reached"] = fmt.Sprintf("variant %d: the moment was not reached within %v (%d block requests in flight)", variant, settleDeadline, inFlight())
 		srv.gate.setIngestShut(false)
 		closeWithin(func() { srv.s.Close() }, closeDeadline)
 		closeAll()
